@@ -512,10 +512,15 @@ func writeRwFunctionTemplateDeclaration(t dsl.TypeDefinition, w *formatting.Inde
 
 // Writes code needed to convert sourceName: typeChange.Old() into targetName: typeChange.New() on read, or vice-versa on write
 func writeTypeConversion(w *formatting.IndentedWriter, typeChange dsl.TypeChange, sourceName, targetName string, write bool) {
+	writeNestedTypeConversion(w, typeChange, sourceName, targetName, write, 0)
+}
+
+// depth counts the enclosing element-wise loops, so that nested loops get their own index and item variables
+func writeNestedTypeConversion(w *formatting.IndentedWriter, typeChange dsl.TypeChange, sourceName, targetName string, write bool, depth int) {
 	switch tc := typeChange.(type) {
 	case *dsl.TypeChangeNumberToNumber:
 		if write {
-			writeTypeConversion(w, tc.Inverse(), sourceName, targetName, !write)
+			writeNestedTypeConversion(w, tc.Inverse(), sourceName, targetName, !write, depth)
 		} else {
 			oldPrim := tc.OldType().(*dsl.SimpleType).ResolvedDefinition.(dsl.PrimitiveDefinition)
 			newPrim := tc.NewType().(*dsl.SimpleType).ResolvedDefinition.(dsl.PrimitiveDefinition)
@@ -568,7 +573,7 @@ func writeTypeConversion(w *formatting.IndentedWriter, typeChange dsl.TypeChange
 
 	case *dsl.TypeChangeComplexToComplex:
 		if write {
-			writeTypeConversion(w, tc.Inverse(), sourceName, targetName, !write)
+			writeNestedTypeConversion(w, tc.Inverse(), sourceName, targetName, !write, depth)
 		} else {
 			oldPrim := tc.OldType().(*dsl.SimpleType).ResolvedDefinition.(dsl.PrimitiveDefinition)
 			newPrim := tc.NewType().(*dsl.SimpleType).ResolvedDefinition.(dsl.PrimitiveDefinition)
@@ -589,7 +594,7 @@ func writeTypeConversion(w *formatting.IndentedWriter, typeChange dsl.TypeChange
 		}
 
 	case *dsl.TypeChangeStringToNumber:
-		writeTypeConversion(w, tc.Inverse(), sourceName, targetName, !write)
+		writeNestedTypeConversion(w, tc.Inverse(), sourceName, targetName, !write, depth)
 	case *dsl.TypeChangeNumberToString:
 		if write {
 			rhs := sourceName
@@ -627,12 +632,20 @@ func writeTypeConversion(w *formatting.IndentedWriter, typeChange dsl.TypeChange
 	case *dsl.TypeChangeOptionalTypeChanged:
 		fmt.Fprintf(w, "if (%s.has_value()) {\n", sourceName)
 		w.Indented(func() {
-			writeTypeConversion(w, tc.InnerChange, sourceName+".value()", targetName, write)
+			// Convert into a temporary of the inner target type, then assign it to the optional target
+			innerTargetType := tc.InnerChange.NewType()
+			if write {
+				innerTargetType = tc.InnerChange.OldType()
+			}
+			tmpName := fmt.Sprintf("inner%d", depth)
+			fmt.Fprintf(w, "%s %s = {};\n", common.TypeSyntax(innerTargetType), tmpName)
+			writeNestedTypeConversion(w, tc.InnerChange, sourceName+".value()", tmpName, write, depth+1)
+			fmt.Fprintf(w, "%s = std::move(%s);\n", targetName, tmpName)
 		})
 		fmt.Fprintf(w, "}\n")
 
 	case *dsl.TypeChangeOptionalToScalar:
-		writeTypeConversion(w, tc.Inverse(), sourceName, targetName, !write)
+		writeNestedTypeConversion(w, tc.Inverse(), sourceName, targetName, !write, depth)
 	case *dsl.TypeChangeScalarToOptional:
 		if write {
 			fmt.Fprintf(w, "if (%s.has_value()) {\n", sourceName)
@@ -645,7 +658,7 @@ func writeTypeConversion(w *formatting.IndentedWriter, typeChange dsl.TypeChange
 		}
 
 	case *dsl.TypeChangeUnionToScalar:
-		writeTypeConversion(w, tc.Inverse(), sourceName, targetName, !write)
+		writeNestedTypeConversion(w, tc.Inverse(), sourceName, targetName, !write, depth)
 	case *dsl.TypeChangeScalarToUnion:
 		if write {
 			// Writing a Union as a Scalar
@@ -660,7 +673,7 @@ func writeTypeConversion(w *formatting.IndentedWriter, typeChange dsl.TypeChange
 		}
 
 	case *dsl.TypeChangeUnionToOptional:
-		writeTypeConversion(w, tc.Inverse(), sourceName, targetName, !write)
+		writeNestedTypeConversion(w, tc.Inverse(), sourceName, targetName, !write, depth)
 	case *dsl.TypeChangeOptionalToUnion:
 		if write {
 			// Writing a Union as an Optional
@@ -684,7 +697,7 @@ func writeTypeConversion(w *formatting.IndentedWriter, typeChange dsl.TypeChange
 
 	case *dsl.TypeChangeUnionTypesetChanged:
 		if write {
-			writeTypeConversion(w, tc.Inverse(), sourceName, targetName, !write)
+			writeNestedTypeConversion(w, tc.Inverse(), sourceName, targetName, !write, depth)
 			return
 		}
 
@@ -714,24 +727,34 @@ func writeTypeConversion(w *formatting.IndentedWriter, typeChange dsl.TypeChange
 
 	case *dsl.TypeChangeVectorTypeChanged:
 		if write {
-			writeTypeConversion(w, tc.Inverse(), sourceName, targetName, !write)
+			writeNestedTypeConversion(w, tc.Inverse(), sourceName, targetName, !write, depth)
 			return
 		}
 
-		fmt.Fprintf(w, "%s.resize(%s.size());\n", targetName, sourceName)
-		fmt.Fprintf(w, "for (size_t i = 0; i < %s.size(); i++) {\n", sourceName)
+		isFixedLength := false
+		if gt, ok := tc.NewType().(*dsl.GeneralizedType); ok {
+			if vec, ok := gt.Dimensionality.(*dsl.Vector); ok && vec.Length != nil {
+				// std::array: the length is part of the type
+				isFixedLength = true
+			}
+		}
+		if !isFixedLength {
+			fmt.Fprintf(w, "%s.resize(%s.size());\n", targetName, sourceName)
+		}
+		indexName := fmt.Sprintf("i%d", depth)
+		fmt.Fprintf(w, "for (size_t %s = 0; %s < %s.size(); %s++) {\n", indexName, indexName, sourceName, indexName)
 		w.Indented(func() {
-			tmpItemName := "item"
+			tmpItemName := fmt.Sprintf("item%d", depth)
 			tmpItemType := common.TypeSyntax(tc.InnerChange.NewType())
 			fmt.Fprintf(w, "%s %s = {};\n", tmpItemType, tmpItemName)
-			writeTypeConversion(w, tc.InnerChange, fmt.Sprintf("%s[i]", sourceName), tmpItemName, write)
-			fmt.Fprintf(w, "%s[i] = %s;\n", targetName, tmpItemName)
+			writeNestedTypeConversion(w, tc.InnerChange, fmt.Sprintf("%s[%s]", sourceName, indexName), tmpItemName, write, depth+1)
+			fmt.Fprintf(w, "%s[%s] = %s;\n", targetName, indexName, tmpItemName)
 		})
 		fmt.Fprintf(w, "}\n")
 
 	case *dsl.TypeChangeStreamTypeChanged:
 		change := &dsl.TypeChangeVectorTypeChanged{TypePair: tc.TypePair, InnerChange: tc.InnerChange}
-		writeTypeConversion(w, change, sourceName, targetName, write)
+		writeNestedTypeConversion(w, change, sourceName, targetName, write, depth)
 
 	default:
 		panic("Expected a TypeChange")
